@@ -4,8 +4,13 @@ import MidnightZK.Model.C19.Dfa
 import MidnightZK.Proofs.C19.Lang
 import MidnightZK.Proofs.C19.Bisim
 import MidnightZK.Proofs.C19.Serial
+import MidnightZK.Proofs.C19.SerialCanon
 import MidnightZK.Proofs.C19.Circuit
+import MidnightZK.Proofs.C19.Coll
 import MidnightZK.Proofs.C19.Base64
+import MidnightZK.Proofs.C19.B64Circuit
+import MidnightZK.Proofs.C19.DataTypes
+import MidnightZK.Proofs.C19.FetchBytes
 import MidnightZK.Gen.C19Base64
 /-!
 # C19 — regex compilation, automaton parsing and base64 decoding are exact
@@ -177,6 +182,63 @@ theorem serialize_roundtrip (A : AutData) (h : A.wf) (rest : List Nat) :
 example : deserialize (serialize ⟨2, 0, [1], [((0, 97), (1, 5))]⟩) =
     some (⟨2, 0, [1], [((0, 97), (1, 5))]⟩, []) := by decide
 
+/-- **Canonical form: `serialize ∘ deserialize = id` on what is read.** Whenever
+`Automaton::deserialize` succeeds on a byte buffer, the bytes it consumed are exactly the
+serialization of the data it returns (entries in the order read), the rest is the unread suffix,
+and every returned number fits its Rust type. With `serialize_roundtrip` the two functions are
+mutually inverse bijections between well-formed data and accepted prefixes: there is no second
+encoding of any automaton (no alternative length encodings, no padding, no ignored bits). -/
+theorem deserialize_canonical (buf : List Nat) (hb : ∀ b ∈ buf, b < 256) (D : AutData)
+    (rest : List Nat) (h : deserialize buf = some (D, rest)) :
+    buf = serialize D ++ rest ∧ D.wf :=
+  deserialize_inv buf hb D rest h
+
+/-- Non-vacuity of `deserialize_canonical`: the 57 bytes of a two-state automaton. -/
+example : ∃ D rest, deserialize (serialize ⟨2, 0, [1], [((0, 97), (1, 5))]⟩ ++ [7, 7]) = some (D, rest) ∧
+    rest = [7, 7] := ⟨⟨2, 0, [1], [((0, 97), (1, 5))]⟩, [7, 7], by decide, rfl⟩
+
+/-- **Two different automata never serialise to the same bytes**, and no serialization is a
+proper prefix of another one (so a concatenation of serialized automata splits uniquely). -/
+theorem serialize_prefix_free (A B : AutData) (hA : A.wf) (hB : B.wf) (r1 r2 : List Nat)
+    (h : serialize A ++ r1 = serialize B ++ r2) : A = B ∧ r1 = r2 := by
+  have h1 := serialize_roundtrip A hA r1
+  rw [h, serialize_roundtrip B hB r2] at h1
+  simp only [Option.some.injEq, Prod.mk.injEq] at h1
+  exact ⟨h1.1.symm, h1.2.symm⟩
+
+theorem serialize_injective (A B : AutData) (hA : A.wf) (hB : B.wf)
+    (h : serialize A = serialize B) : A = B :=
+  (serialize_prefix_free A B hA hB [] [] (by simp [h])).1
+
+/-- **Length fields are binding.** A successful deserialization consumes exactly
+`32 + 8·|final_states| + 25·|transitions|` bytes, where the two counts are the announced
+`Vec` lengths: an INCREASED length field (more entries announced than the buffer holds) is an
+error, a decreased one leaves the surplus unread (it is returned as `rest`; the only caller,
+`deserialize_unwrap`, does not look at it — trailing bytes are NOT rejected by the code as it
+is). -/
+theorem deserialize_consumed_length (buf : List Nat) (hb : ∀ b ∈ buf, b < 256) (D : AutData)
+    (rest : List Nat) (h : deserialize buf = some (D, rest)) :
+    buf.length = 32 + 8 * D.finals.length + 25 * D.trans.length + rest.length := by
+  have := (deserialize_inv buf hb D rest h).1
+  rw [this, List.length_append, serialize_length]
+
+/-- Consequence: a buffer whose announced lengths need more bytes than it has is rejected. In
+particular every strict prefix of a serialization is rejected (truncation at ANY position). -/
+theorem deserialize_truncated (A : AutData) (hA : A.wf) (hbytes : ∀ b ∈ serialize A, b < 256)
+    (k : Nat) (hk : k < (serialize A).length) : deserialize ((serialize A).take k) = none := by
+  cases hd : deserialize ((serialize A).take k) with
+  | none => rfl
+  | some p =>
+    obtain ⟨D, rest⟩ := p
+    have hb : ∀ b ∈ (serialize A).take k, b < 256 := fun b hx => hbytes b (List.mem_of_mem_take hx)
+    obtain ⟨e, hD⟩ := deserialize_inv _ hb D rest hd
+    have e2 : serialize A = serialize D ++ (rest ++ (serialize A).drop k) := by
+      rw [← List.append_assoc, ← e, List.take_append_drop]
+    have := serialize_prefix_free A D hA hD [] _ (by simpa using e2)
+    have hl := congrArg List.length this.2
+    simp only [List.length_nil, List.length_append, List.length_drop] at hl
+    omega
+
 /-- A buffer shorter than one `usize` is rejected (`ensure_buf_len!`), never mis-read. -/
 theorem deserialize_short (buf : List Nat) (h : buf.length < 8) : deserialize buf = none := by
   simp [deserialize, deUsize_short buf h]
@@ -244,6 +306,105 @@ example : ∃ s0 sts, layoutSat
   (parse_layout_iff_run ⟨2, 0, #[false, true], (Array.replicate 512 none).set! 97 (some (1, 5))⟩
     1 (by decide) [97] [5] (by simp)).mpr (by decide +kernel)
 
+/-! ## Several automata in one table (`NativeAutomaton::from_collection`) -/
+
+/-- **Offsets of `from_collection`.** Whatever the automata (closed: numbers below `nb_states`)
+and however many: the offsets `1, 1 + n₀, 1 + n₀ + n₁, …` give a well-formed collection — no
+member uses state 0 (the dummy state) and the state ranges `[offᵢ, offᵢ + nᵢ)` are pairwise
+disjoint — and the members are the given automata in order. -/
+theorem from_collection_wf (As : List Dfa) (h : ∀ A ∈ As, A.closed) :
+    collWf (collOf As) ∧ (collOf As).map (·.1) = As := by
+  refine ⟨⟨?_, collFrom_pairwise As 1⟩, collFrom_fst As 1⟩
+  intro p hp
+  refine ⟨collFrom_ge As 1 p hp, h _ ?_⟩
+  have : p.1 ∈ (collOf As).map (·.1) := List.mem_map_of_mem hp
+  rwa [collOf, collFrom_fst] at this
+
+/-- The executable closedness test (run by the driver on every automaton put in a collection)
+implies `Dfa.closed`. -/
+theorem closedB_sound (A : Dfa) (h : A.closedB = true) : A.closed := closedB_closed A h
+
+/-- **The loaded table of a collection** (as emitted and compared with the fixed columns of the
+real circuit configured with 2–4 automata) has exactly the rows of `inCollTable`: the dummy
+row and, for every member, its shifted transitions and final-state sentinels. -/
+theorem parse_collection_table_rows (C : List (Dfa × Nat)) (row : Nat × Nat × Nat × Nat) :
+    row ∈ collTableRows C ↔ inCollTable C row :=
+  mem_collTableRows_iff C row
+
+/-- With one automaton the collection table is the single-automaton table of
+`parse_table_rows`. -/
+theorem parse_collection_table_single (A : Dfa) : collTableRows (collOf [A]) = tableRows A 1 := by
+  simp [collTableRows, collOf, collFrom, tableRows]
+
+/-- **A run never leaves its member's range, and the other members' rows are invisible to it.**
+In a well-formed collection, any table row `(s, b, s', o)` on a byte whose source state lies in
+the range of member `(A, off)` is `A`'s own transition `s - off --b/o--> s' - off`, and `s'` is
+again in `A`'s range. (A prover that has been pinned to `A`'s initial state can therefore never
+reach a state of another automaton.) -/
+theorem collection_step_in_range (C : List (Dfa × Nat)) (hC : collWf C) (A : Dfa) (off : Nat)
+    (hA : (A, off) ∈ C) (s b s' o : Nat) (hs : off ≤ s ∧ s < off + A.nStates) (hb : b < 256)
+    (h : inCollTable C (s, b, s', o)) :
+    (off ≤ s' ∧ s' < off + A.nStates) ∧ A.lookup (s - off) b = some (s' - off, o) :=
+  inTable_step A off (hC.1 _ hA).1 (hC.1 _ hA).2 s b s' o hs.1 hb
+    ((coll_row_restrict C hC A off hA s b s' o hs).mp h)
+
+/-- **Layout of `AutomatonChip::parse(automaton_index, ·)` with several automata in the table ⇔
+run of the chosen automaton.** For every well-formed collection (in particular every
+`from_collection` of closed automata, any number of members), every member `(A, off)`, every
+input and every output column: some assignment of the free state cells satisfies all copy
+constraints (first state pinned to `A.init + off`) and all lookups into the SHARED table **iff**
+`A` accepts the input and emits exactly these outputs. The rows of the other automata can
+neither make a rejected input satisfiable nor change the markers. -/
+theorem parse_collection_iff_run (C : List (Dfa × Nat)) (hC : collWf C) (A : Dfa) (off : Nat)
+    (hA : (A, off) ∈ C) (bytes outs : List Nat) (hb : ∀ b ∈ bytes, b < 256) :
+    (∃ s0 sts, layoutSatT (inCollTable C) (mkRows (s0, .fixed (A.init + off)) sts bytes outs)) ↔
+      A.accepts bytes outs = true := by
+  have hA' : 0 < off ∧ A.closed := hC.1 _ hA
+  have hr : off ≤ A.init + off ∧ A.init + off < off + A.nStates := by
+    have := hA'.2.1; omega
+  rw [← parse_rows_iff_run A off hA'.1 bytes outs hb,
+    ← rowsOkT_coll_iff C hC A off hA bytes outs (A.init + off) hb hr]
+  constructor
+  · rintro ⟨s0, sts, h⟩
+    have := (layoutSatT_mkRows_iff _ bytes outs (s0, .fixed (A.init + off))).mp ⟨sts, h⟩
+    simp only [pinOk] at this
+    rw [← this.1]
+    exact this.2
+  · intro h
+    obtain ⟨sts, hs⟩ := (layoutSatT_mkRows_iff _ bytes outs
+      (A.init + off, .fixed (A.init + off))).mpr ⟨rfl, h⟩
+    exact ⟨_, sts, hs⟩
+
+/-- The same for the collection built by `from_collection` from a list of closed automata: the
+`i`-th automaton, parsed in a circuit whose table holds all of them. -/
+theorem parse_from_collection_iff_run (As : List Dfa) (h : ∀ A ∈ As, A.closed) (i : Nat)
+    (A : Dfa) (off : Nat) (hi : collMember As i = some (A, off)) (bytes outs : List Nat)
+    (hb : ∀ b ∈ bytes, b < 256) :
+    (∃ s0 sts, layoutSatT (inCollTable (collOf As))
+        (mkRows (s0, .fixed (A.init + off)) sts bytes outs)) ↔ A.accepts bytes outs = true :=
+  parse_collection_iff_run _ (from_collection_wf As h).1 A off
+    (List.mem_of_getElem? hi) bytes outs hb
+
+/-- Non-vacuity: two automata `0 -a/5-> 1` (final) and `0 -b/7-> 1` (final) in one table; the
+second one (offset 3) parses "b" and — the rows of the first being in the same table — still
+rejects "a". -/
+example :
+    let A : Dfa := ⟨2, 0, #[false, true], (Array.replicate 512 none).set! 97 (some (1, 5))⟩
+    let B : Dfa := ⟨2, 0, #[false, true], (Array.replicate 512 none).set! 98 (some (1, 7))⟩
+    collMember [A, B] 1 = some (B, 3) ∧
+    (∃ s0 sts, layoutSatT (inCollTable (collOf [A, B])) (mkRows (s0, .fixed (0 + 3)) sts [98] [7])) ∧
+    ¬ (∃ s0 sts, layoutSatT (inCollTable (collOf [A, B])) (mkRows (s0, .fixed (0 + 3)) sts [97] [5])) := by
+  intro A B
+  have hcl : ∀ X ∈ [A, B], X.closed := by
+    intro X hX
+    simp only [List.mem_cons, List.not_mem_nil, or_false] at hX
+    rcases hX with rfl | rfl <;> exact closedB_sound _ (by decide +kernel)
+  have hm : collMember [A, B] 1 = some (B, 3) := rfl
+  refine ⟨hm, ?_, ?_⟩
+  · exact (parse_from_collection_iff_run [A, B] hcl 1 B 3 hm [98] [7] (by simp)).mpr (by decide +kernel)
+  · rw [parse_from_collection_iff_run [A, B] hcl 1 B 3 hm [97] [5] (by simp)]
+    decide +kernel
+
 /-- The honest prover's verdict (`parseModel`, what the harness observes under `MockProver`) is
 the acceptance of the automaton. -/
 theorem parseModel_spec (A : Dfa) (bytes outs : List Nat) :
@@ -261,6 +422,20 @@ theorem circuit_accepts_iff_lang (fuel : Nat) (A : Dfa) (r : Rx) (h : checkEquiv
     (off : Nat) (hoff : 0 < off) (w : List Letter) (hw : ∀ a ∈ w, a.1 < 256) :
     rowsOk A off (A.init + off) (w.map (·.1)) (w.map (·.2)) ↔ L r w := by
   rw [parse_rows_iff_run A off hoff _ _ (by
+    intro b hb
+    obtain ⟨a, ha, rfl⟩ := List.mem_map.mp hb
+    exact hw a ha)]
+  exact checkEquiv_sound fuel A r h w hw
+
+/-- End to end with several automata in the table: a member validated against its expression
+makes the circuit (shared table, first state pinned to the member's shifted initial state)
+satisfiable exactly on the marked words of that expression's language. -/
+theorem collection_circuit_accepts_iff_lang (fuel : Nat) (C : List (Dfa × Nat)) (hC : collWf C)
+    (A : Dfa) (off : Nat) (hA : (A, off) ∈ C) (r : Rx) (h : checkEquiv fuel A r = true)
+    (w : List Letter) (hw : ∀ a ∈ w, a.1 < 256) :
+    (∃ s0 sts, layoutSatT (inCollTable C)
+        (mkRows (s0, .fixed (A.init + off)) sts (w.map (·.1)) (w.map (·.2)))) ↔ L r w := by
+  rw [parse_collection_iff_run C hC A off hA _ _ (by
     intro b hb
     obtain ⟨a, ha, rfl⟩ := List.mem_map.mp hb
     exact hw a ha)]
@@ -310,6 +485,137 @@ theorem base64_noncanonical_accepted :
 alphabet (`url_to_standard` only rewrites `-` and `_`). -/
 theorem base64url_accepts_std_chars :
     B64.decodeUrl true [43, 47, 43, 47] = some [251, 255, 191] := by decide
+
+/-! ## The lookup wiring of `Base64Chip` -/
+
+/-- **The lookup of `Base64Chip`.** With the table that `two_entry_table` builds from the
+CURRENT `BASE64_TABLE` (regenerated from `table.rs` on every run; the emitted table and the
+lookup expression `q·(a0·256 + a1) + (1 − q)·default` are compared with the real circuit): for
+any two bytes and any prover-chosen value, the row `(c0·256 + c1, v)` is in the table iff both
+bytes are alphabet characters and `v = val c0 · 64 + val c1`. No pair of bytes aliases another
+one, no value is allowed for a non-alphabet character (`=` included). -/
+theorem base64_lookup_sound (c0 c1 v : Nat) (h0 : c0 < 256) (h1 : c1 < 256) :
+    (c0 * 256 + c1, v) ∈ B64.twoEntryTable Gen.base64Table ↔ B64.pairVal c0 c1 = some v :=
+  B64.mem_twoEntry_iff c0 c1 v h0 h1
+
+/-- **`base64_rows_sound`.** For every input over bytes (any length), padded or not, and every
+claimed output: all constraints of `decode_base64` — the two lookups of every "Base64 chunk"
+region with prover-chosen 12-bit values, the byte decomposition of `v01·2^12 + v23`, and on the
+last chunk the assertion `pad_in_3rd → pad_in_4th` with the substitution of `=` by `ALT_PAD`
+(padded) or the fill with the constant `ALT_PAD` (unpadded) — are satisfiable **iff** the
+arithmetic decoder `B64.decode` (the one of `base64_decode_spec`, `base64_reject_char`,
+`base64_reject_padding`) returns exactly this output. Hence: rows ⇒ output = RFC 4648 decoding of
+the characters; every malformed-input class of those theorems ⇒ no satisfying rows. -/
+theorem base64_rows_sound (padded : Bool) (input out : List Nat) (h : ∀ c ∈ input, c < 256) :
+    B64.decodeSat (B64.twoEntryTable Gen.base64Table) padded input out ↔
+      B64.decode padded input = some out :=
+  B64.decodeSat_iff padded input h out
+
+/-- Non-vacuity: the rows of "QUI=" are satisfiable with output "AB\0", and with no other. -/
+example : B64.decodeSat (B64.twoEntryTable Gen.base64Table) true [81, 85, 73, 61] [65, 66, 0] ∧
+    ¬ B64.decodeSat (B64.twoEntryTable Gen.base64Table) true [81, 85, 73, 61] [65, 66, 1] := by
+  constructor
+  · exact (base64_rows_sound true _ _ (by decide)).mpr (by decide)
+  · rw [base64_rows_sound true _ _ (by decide)]; decide
+
+/-- **RFC 4648 through the rows.** For every byte string, in both modes: the rows of
+`decode_base64` on its standard encoding are satisfiable, and the ONLY output they admit is the
+byte string followed by the zero fill — the prover has no freedom in the 12-bit values or the
+output bytes. -/
+theorem base64_rows_rfc (pad : Bool) (bytes out : List Nat) (h : ∀ b ∈ bytes, b < 256) :
+    B64.decodeSat (B64.twoEntryTable Gen.base64Table) pad (B64.encode pad bytes) out ↔
+      out = bytes ++ B64.zeroFill bytes.length := by
+  rw [base64_rows_sound pad _ out (B64.encode_lt pad bytes), base64_decode_spec pad bytes h]
+  simp [eq_comm]
+
+/-- A non-alphabet, non-`=` byte anywhere in the input leaves no satisfying rows, whatever the
+prover writes into the value cells. -/
+theorem base64_rows_reject_char (pad : Bool) (input out : List Nat) (hb : ∀ c ∈ input, c < 256)
+    (h : ∃ c ∈ input, B64.val c = none ∧ c ≠ B64.b64Pad) :
+    ¬ B64.decodeSat (B64.twoEntryTable Gen.base64Table) pad input out := by
+  rw [base64_rows_sound pad input out hb, base64_reject_char pad input h]
+  simp
+
+/-- Variable length (`var_decode_base64` on a `Base64Vec<_, M, 4>`): the chunks decoded are
+those of the whole right-aligned buffer (filler `ALT_PAD`) in padded mode; the rows of that
+buffer are satisfiable iff `B64.decode true` of the buffer returns the output, of which
+`B64.decodeVar` keeps the last `3/4·len` bytes. -/
+theorem base64_var_rows_sound (m : Nat) (input out : List Nat) (h : ∀ c ∈ input, c < 256) :
+    B64.decodeSat (B64.twoEntryTable Gen.base64Table) true
+        (List.replicate (m - input.length) B64.altPad ++ input) out ↔
+      B64.decode true (List.replicate (m - input.length) B64.altPad ++ input) = some out :=
+  B64.decodeSat_iff true _ (by
+    intro c hc
+    rcases List.mem_append.mp hc with h1 | h1
+    · rw [(List.mem_replicate.mp h1).2]; decide
+    · exact h c h1) out
+
+/-! ## `ParserGadget`: windows of a byte sequence and decimal fields -/
+
+/-- **`get_subsequence`.** For every sequence, window length and (prover-supplied) index: the
+select loop of `parser_gadget.rs: get_subsequence` returns exactly the window
+`sequence[idx .. idx + len]` when `idx ≤ n − len`, and the range assertion makes the circuit
+unsatisfiable for every other index (no wrap-around window, no default-filled output). -/
+theorem get_subsequence_spec (seq : List Nat) (idx len : Nat) :
+    PG.getSubsequence seq idx len =
+      if idx < seq.length - len + 1 then some ((seq.drop idx).take len) else none :=
+  PG.getSubsequence_eq seq idx len
+
+/-- Non-vacuity (the repository's own test vector): window of length 4 at index 1. -/
+example : PG.getSubsequence [1, 2, 3, 4, 5, 6] 1 4 = some [2, 3, 4, 5] := by decide
+
+/-- **`fetch_bytes` returns the window.** For every byte sequence, every window length
+`len ≤ n` (the Rust code panics otherwise) and every prover-supplied index: the chunked
+algorithm of `parser_gadget.rs: fetch_bytes` — the sequence packed into 31-byte little-endian
+chunks plus a dummy chunk, `div_rem(idx, 31)`, coarse `get_subsequence` of
+`min(nb_chunks, 1 + ⌈len/31⌉)` chunks, unpacking into bytes, fine `get_subsequence` at
+`idx mod 31` — is satisfiable iff `idx ≤ n − len`, and then returns exactly
+`sequence[idx .. idx + len]`: the two inner range assertions never reject an in-range index
+(completeness) and the window never reads the zero padding of the last chunk or the dummy
+chunk (soundness), at every chunk boundary. -/
+theorem fetch_bytes_spec (seq : List Nat) (hb : ∀ b ∈ seq, b < 256) (idx len : Nat)
+    (hlen : len ≤ seq.length) :
+    PG.fetchBytes seq idx len =
+      if idx < seq.length - len + 1 then some ((seq.drop idx).take len) else none :=
+  PG.fetchBytes_eq seq hb idx len hlen
+
+/-- Non-vacuity: the repository's vectors and a window that straddles the first chunk boundary. -/
+example : PG.fetchBytes [1, 2, 4, 8, 16] 3 2 = some [8, 16] ∧ PG.fetchBytes [1, 2, 4, 8, 16] 4 2 = none ∧
+    PG.fetchBytes ((List.range 70).map (· + 1)) 30 3 = some [31, 32, 33] := by decide +kernel
+
+/-- **`ascii_to_int`.** For every byte string: satisfiable iff every byte is an ASCII digit
+(a byte below `'0'` wraps around in `byte − 48` and fails the `< 10` assertion like a byte
+above `'9'`), and then the result is the decimal value, leading zeros allowed. -/
+theorem ascii_to_int_spec (input : List Nat) :
+    PG.asciiToInt input =
+      if (∀ b ∈ input, 48 ≤ b ∧ b < 58) then some (PG.decimal input) else none :=
+  PG.asciiToInt_eq input
+
+/-- Non-vacuity: "000123" reads as 123; "12a" is refused. -/
+example : PG.asciiToInt [48, 48, 48, 49, 50, 51] = some 123 ∧ PG.asciiToInt [49, 50, 97] = none := by
+  decide
+
+/-- **`date_to_int`**, all four `(DateFormat, Separator)` combinations, every input of the
+asserted length: satisfiable iff the separator positions (if any) hold the given character and
+the other eight characters are digits; the value is `DD + 100·MM + 10000·YYYY` (no calendar
+validity, as documented). -/
+theorem date_to_int_spec (s s1 s2 d1 d2 m1 m2 y1 y2 y3 y4 : Nat) :
+    let digits := PG.isDigit y1 ∧ PG.isDigit y2 ∧ PG.isDigit y3 ∧ PG.isDigit y4 ∧ PG.isDigit m1 ∧
+      PG.isDigit m2 ∧ PG.isDigit d1 ∧ PG.isDigit d2
+    let v := PG.decimal [d1, d2] + 100 * PG.decimal [m1, m2] + 10000 * PG.decimal [y1, y2, y3, y4]
+    PG.dateToInt .ddmmyyyy none [d1, d2, m1, m2, y1, y2, y3, y4] = (if digits then some v else none) ∧
+    PG.dateToInt .yyyymmdd none [y1, y2, y3, y4, m1, m2, d1, d2] = (if digits then some v else none) ∧
+    PG.dateToInt .ddmmyyyy (some s) [d1, d2, s1, m1, m2, s2, y1, y2, y3, y4] =
+      (if s1 = s ∧ s2 = s then (if digits then some v else none) else none) ∧
+    PG.dateToInt .yyyymmdd (some s) [y1, y2, y3, y4, s1, m1, m2, s2, d1, d2] =
+      (if s1 = s ∧ s2 = s then (if digits then some v else none) else none) :=
+  ⟨PG.dateToInt_dmy d1 d2 m1 m2 y1 y2 y3 y4, PG.dateToInt_ymd d1 d2 m1 m2 y1 y2 y3 y4,
+    PG.dateToInt_dmy_sep s s1 s2 d1 d2 m1 m2 y1 y2 y3 y4,
+    PG.dateToInt_ymd_sep s s1 s2 d1 d2 m1 m2 y1 y2 y3 y4⟩
+
+/-- Non-vacuity: "31-12-1999" reads as 19991231. -/
+example : PG.dateToInt .ddmmyyyy (some 45) [51, 49, 45, 49, 50, 45, 49, 57, 57, 57] = some 19991231 := by
+  decide
 
 /-! ## Constants regenerated from the Rust sources on every run (`translators/c19_base64.py`) -/
 
